@@ -36,18 +36,37 @@ def parse_stream(x):
     assert 12 + blocks + bs + 12 == len(x), (blocks, bs, len(x))
     return dict(check=x[7] & 0x0F, bs=bs, records=recs, blocks=blocks)
 
+TEMP = 8192          # sizeof(lzma_file_info_coder.temp), FileInfo!TempCap in spec/TraceFileInfo.cfg
+
+def encode_to_size(coders, s, target):
+    """A Stream of exactly `target` bytes from the real encoder: incompressible data (LZMA2 stores it in
+    uncompressed chunks), length adjusted until the size matches."""
+    rng = random.Random(s["seed"])
+    pool = rng.randbytes(target + 64)
+    n = max(1, target - 64)
+    for _ in range(12):
+        x = coders.encode_xz(pool[:n], preset=s["preset"], check=s["check"], block_size=None)
+        if len(x) == target:
+            return pool[:n], x
+        n = max(1, n + target - len(x))
+    raise RuntimeError("cannot build a Stream of %d bytes (got %d)" % (target, len(x)))
+
 def build_file(lz, coders, item):
-    parts = []; plain = []; layout = []; streams = []
-    for s in item["streams"]:
-        rng = random.Random(s["seed"])
-        data = coders.rand_data(rng, s["n"], s["kind"])
-        x = coders.encode_xz(data, preset=s["preset"], check=s["check"], block_size=s["block_size"])
+    """Streams are built from the last to the first: a Stream with "window_delta" = d is sized so that its Stream
+    Header starts TEMP + d bytes before the end of the file, i.e. d bytes before the first look-back window."""
+    built = []; tail = 0
+    for s in reversed(item["streams"]):
+        if "window_delta" in s:
+            data, x = encode_to_size(coders, s, TEMP + s["window_delta"] - tail - s["pad"])
+        else:
+            rng = random.Random(s["seed"])
+            data = coders.rand_data(rng, s["n"], s["kind"])
+            x = coders.encode_xz(data, preset=s["preset"], check=s["check"], block_size=s["block_size"])
         info = parse_stream(x)
-        if s["block_size"] is None and s["n"] == 0:
-            assert info["records"] == []
-        parts.append(x + bytes(s["pad"])); plain.append(data)
-        layout.append([info["blocks"], info["bs"], s["pad"], info["bs"], info["blocks"]])
-        streams.append(info)
+        tail += len(x) + s["pad"]
+        built.append((x + bytes(s["pad"]), data, [info["blocks"], info["bs"], s["pad"], info["bs"], info["blocks"]], info))
+    built.reverse()
+    parts = [b[0] for b in built]; plain = [b[1] for b in built]; layout = [b[2] for b in built]; streams = [b[3] for b in built]
     data = b"".join(parts)
     dmg = item.get("damage")
     if dmg:
